@@ -171,6 +171,7 @@ Section Model.
     e_key : option N;            (* the result-cache key *)
     e_detected : bool;           (* compiler_info re-ran the detection *)
     e_exe : option path;         (* the path that was (or would be) executed *)
+    e_ran : option N;            (* the bytes found there when the request was served *)
     e_out : outcome }.
 
   Inductive op :=
@@ -190,25 +191,25 @@ Section Model.
     let cur := stat (fsys s) p in
     let '(c', i) := compiler_info legacy (comps s) (fsys s) p in
     let s' := {| fsys := fsys s; comps := c'; results := results s |} in
-    let ev id key det exe out :=
+    let ev id key det exe ran out :=
       {| e_path := p; e_src := src; e_cur := cur; e_id := id; e_key := key;
-         e_detected := det; e_exe := exe; e_out := out |} in
+         e_detected := det; e_exe := exe; e_ran := ran; e_out := out |} in
     match i with
-    | IPanic => (s', ev None None false None OPanic)
-    | IErr => (s', ev None None true None OUnsupported)
+    | IPanic => (s', ev None None false None None OPanic)
+    | IErr => (s', ev None None true None None OUnsupported)
     | IOk exe id det =>
         let k := H id src in
         match stat (fsys s) exe with
-        | None => (s', ev (Some id) (Some k) det (Some exe) OFail)
+        | None => (s', ev (Some id) (Some k) det (Some exe) None OFail)
         | Some (b, _) =>
             match detect b with
-            | None => (s', ev (Some id) (Some k) det (Some exe) OFail)
+            | None => (s', ev (Some id) (Some k) det (Some exe) (Some b) OFail)
             | Some _ =>
                 match rlookup k (results s) with
-                | Some prod => (s', ev (Some id) (Some k) det (Some exe) (OHit prod))
+                | Some prod => (s', ev (Some id) (Some k) det (Some exe) (Some b) (OHit prod))
                 | None =>
                     ({| fsys := fsys s; comps := c'; results := (k, b) :: results s |},
-                     ev (Some id) (Some k) det (Some exe) (OMiss b))
+                     ev (Some id) (Some k) det (Some exe) (Some b) (OMiss b))
                 end
             end
         end
